@@ -269,6 +269,7 @@ fn clip_element(
     .unwrap();
     path.fill = Some(crate::Fill::default());
     clip_path.root.children.push(Node::Path(Box::new(path)));
+    clip_path.root.calculate_bounding_boxes();
 
     // Nodes generated by markers must not have an ID. Otherwise we would have duplicates.
     let id = if state.parent_markers.is_empty() {
